@@ -187,6 +187,7 @@ def difference_detail(stage: str, specs: List[Tuple[str, int]], per_child: List[
 class C17(Property):
     ID = "C17"
     SHAPE = [
+        ("antismash/detection/hmm_detection/__init__.py", "get_ruleset"),
         ("antismash/common/hmmscan_refinement.py", "gather_by_query"),
         ("antismash/common/hmmscan_refinement.py", "refine_hmmscan_results"),
         ("antismash/common/hmmscan_refinement.py", "HMMResult.__hash__"),
@@ -766,7 +767,22 @@ class C17(Property):
             cases.append(self.gen_hmmer(rng))
         for _ in range(50 * scale):
             cases.append(self.gen_region(rng))
+        for _ in range(6 * scale):
+            cases.append(self.gen_ruleset(rng))
         return cases
+
+    RULE_POOL = ["T1PKS", "NRPS", "T3PKS", "terpene", "lanthipeptide-class-i", "lanthipeptide-class-ii", "thiopeptide",
+                 "NRPS-like", "transAT-PKS", "PKS-like", "hglE-KS", "T2PKS", "arylpolyene", "siderophore", "betalactone",
+                 "RiPP-like", "lassopeptide", "sactipeptide", "ectoine", "butyrolactone"]
+
+    def gen_ruleset(self, rng: random.Random) -> Dict[str, Any]:
+        """the shipped rules restricted with --hmmdetection-limit-to-rule-names / -categories"""
+        case: Dict[str, Any] = {"kind": "ruleset", "strictness": rng.choice(["strict", "relaxed", "loose"])}
+        if rng.random() < 0.8:
+            case["names"] = rng.sample(self.RULE_POOL, rng.choice([2, 3, 5, 8]))
+        else:
+            case["categories"] = rng.sample(["PKS", "NRPS", "RiPP", "terpene", "other"], rng.choice([1, 2, 3]))
+        return case
 
     def shrink_matrix(self, case: Dict[str, Any]) -> Iterator[Dict[str, Any]]:
         kind = case["kind"]
